@@ -138,6 +138,8 @@ def make_table(rng, points, n_trials, style):
         if style == "distinct":
             m = m + rng.random()
             vals = [m + rng.uniform(-0.4, 0.4) for _ in range(n_trials)]
+            if n_trials >= 10:      # late trials carry weight: a mean over the first nine trials ranks differently
+                vals[9:] = [v + rng.choice([-40.0, 40.0]) for v in vals[9:]]
         elif style == "tied-means":
             m = rng.choice([-2.0, 0.0, 5.0])
             spread = rng.choice([0.0, 0.5, 2.0])
@@ -217,6 +219,105 @@ def work_tuner(item, opts):
         except Exception as e:
             viol("resolve", f"resolve() raised {type(e).__name__}: {e}")
     finally:
+        shutil.rmtree(wd, ignore_errors=True)
+    return out
+
+
+def _logged(base_name):
+    base = env.optimizer_classes()[base_name]
+
+    class Logged(base):
+        """the real optimizer; optimize() additionally logs the configuration it actually runs with"""
+
+        def optimize(self, task, mode=None, workers=None):
+            line = json.dumps({"config": canon(self.configuration.model_dump())}, sort_keys=True) + "\n"
+            fd = os.open(task.data["cfglog"], os.O_WRONLY | os.O_APPEND | os.O_CREAT, 0o644)
+            try:
+                os.write(fd, line.encode())
+            finally:
+                os.close(fd)
+            # the run itself is not the subject here (and real algorithms have input-dependent failures of their own):
+            # return a synthetic result whose cost is a deterministic function of the configuration
+            cost = float(sum(ord(ch) for ch in line) % 997)
+            return OptimizationResult(evolution=[], rates=[0.5], best_solution=Agent(position=[0.0], cost=cost, fitness=0.5))
+
+    Logged.__name__ = Logged.__qualname__ = "Logged" + base_name
+    return Logged
+
+
+LOGGED_BASES = ["ForestOptimizationAlgorithm", "CatSwarmOptimization", "BatOptimization", "FoxOptimization",
+                "MonarchButterflyOptimization", "GizaPyramidConstructionOptimization", "ParticleSwarmOptimization"]
+for _n in LOGGED_BASES:
+    globals()["Logged" + _n] = _logged(_n)
+
+
+def work_logged(item, opts):
+    """real optimizers driven by HyperTuner through sub-grids that tune DIFFERENT optional parameters: every trial must run
+    with exactly Config(**point)"""
+    import collections
+    rng = random.Random(f"c19l/{item['seed']}")
+    name = item["opt"]
+    out = {"viol": [], "points": 0, "calls": 0}
+    Cfg = env.config_class(name)
+    base = dict(universe.base_configs()[name])
+    base["max_cycles"] = 2
+    base["fitness_error"] = None
+    base["population_size"] = base["population_size"] * 2
+    fields = Cfg.model_fields
+    optional = [k for k in sorted(fields) if not fields[k].is_required() and k not in ("early_stopping", "fitness_error")]
+    required = {k: [v] for k, v in base.items() if fields[k].is_required()}
+    subgrids = []
+    req1 = {k: v[0] for k, v in required.items()}
+    for k in optional[:4]:
+        d0 = fields[k].default
+        cands = [not d0] if isinstance(d0, bool) else [d0 + 1, d0 - 1, d0 + 2] if isinstance(d0, int) else \
+            [d0 * 0.9, d0 * 1.1] if isinstance(d0, float) else []
+        vals = [c for c in cands if universe.config_valid(name, {**req1, k: c})][:2]
+        if not vals:
+            continue
+        subgrids.append({**required, k: vals})
+    subgrids.append(dict(required))
+    # every point of every sub-grid must be a configuration the real config model accepts
+    subgrids = [g for g in subgrids if all(universe.config_valid(name, p_) for p_ in expected_points(g))]
+    if not subgrids:
+        return out
+    rng.shuffle(subgrids)
+    wd = tempfile.mkdtemp(prefix="c19l.", dir=os.environ.get("PVMON_WORKDIR"))
+    spec = universe.make_spec(rng, kind="continuous", minmax=item["minmax"])
+    spec["seed"] = None
+    rid = f"c19l-{os.getpid()}"
+    tasks.register_run(rid, spec)
+    try:
+        log = os.path.join(wd, "cfg.jsonl")
+        task = tasks.build_task(spec, rid, extra_data={"cfglog": log})
+        pre = None
+        if item.get("preconfigured"):
+            pc = {**req1, **{k: v[-1] for g in subgrids for k, v in g.items() if k in optional}}
+            if universe.config_valid(name, pc):
+                pre = Cfg(**pc)
+        algo = globals()["Logged" + name](pre) if pre is not None else globals()["Logged" + name]()
+        tuner = HyperTuner(algo, param_grid=json.loads(json.dumps(subgrids)))
+        import contextlib, io
+        with contextlib.redirect_stdout(io.StringIO()):
+            tuner.execute(task, n_trials=item["n_trials"], n_jobs=2, mode="serial")
+        points = expected_points(subgrids)
+        out["points"] = len(points)
+        want = collections.Counter()
+        for p_ in points:
+            want[json.dumps(canon(Cfg(**p_).model_dump()), sort_keys=True)] += item["n_trials"]
+        calls = [json.loads(l)["config"] for l in open(log)] if os.path.exists(log) else []
+        out["calls"] = len(calls)
+        got = collections.Counter(json.dumps(c, sort_keys=True) for c in calls)
+        if got != want:
+            extra = [k for k in got if k not in want][:1]
+            out["viol"].append({"key": {"component": "HyperTuner", "kind": "grid-point-run-with-other-parameters", "optimizer": name},
+                                "detail": f"{name}: sub-grids {subgrids!r}: configurations actually run differ from Config(**point); "
+                                          f"e.g. ran with {extra[0][:200] if extra else 'a wrong multiplicity'}"[:500]})
+    except Exception as e:
+        out["viol"].append({"key": {"component": "HyperTuner", "kind": "execute-exception", "optimizer": name},
+                            "detail": f"{name} (logged): {type(e).__name__}: {e}"[:300]})
+    finally:
+        tasks.unregister_run(rid)
         shutil.rmtree(wd, ignore_errors=True)
     return out
 
@@ -308,7 +409,7 @@ def check(prop, tier, seed):
     tun_grids = [d for d in dicts if 1 <= math.prod(len(v) for v in d.values()) <= 9 and d] + [[a, b] for a in small[:6] for b in small[1:5]]
     for k in range(n_tuner):
         g = rng.choice(tun_grids)
-        items.append({"seed": f"{seed}/{k}", "grid": g, "n_trials": rng.choice([1, 2, 2, 3]), "minmax": rng.choice(["min", "max"]),
+        items.append({"seed": f"{seed}/{k}", "grid": g, "n_trials": rng.choice([1, 2, 2, 3, 3, 10, 12]), "minmax": rng.choice(["min", "max"]),
                       "style": rng.choice(["distinct", "distinct", "tied-means", "all-equal", "negative"]),
                       "n_jobs": rng.choice([1, 2, 3, 5]), "mode": rng.choice(["serial", "serial", "thread", "process"]),
                       "debug": rng.random() < 0.3})
@@ -338,6 +439,22 @@ def check(prop, tier, seed):
         rep.distinct.add(("real", it["seed"]))
         for v in r["viol"]:
             rep.violation(v["key"], v["detail"], replay={"kind": "real", "item": it})
+    litems = [{"seed": f"{seed}/{k}", "opt": LOGGED_BASES[k % len(LOGGED_BASES)], "minmax": ["min", "max"][k % 2], "n_trials": rng.choice([1, 2]),
+               "preconfigured": k % 3 == 0} for k in range(len(LOGGED_BASES) * (1 if tier == "quick" else 8))]
+    res = runner.run_parallel("pvmon.props.c19", "work_logged", litems, {}, jobs=6, per_item_s=120)
+    logged_done = logged_calls = 0
+    for it, r in zip(litems, res):
+        rep.evaluations += 1
+        if isinstance(r, Lost):
+            rep.lost += 1
+            continue
+        logged_done += 1
+        logged_calls += r["calls"]
+        rep.distinct.add(("logged", it["seed"]))
+        for v in r["viol"]:
+            rep.violation(v["key"], v["detail"], replay={"kind": "logged", "item": it})
+    rep.extra["tuner_runs_logged_real_optimizers"] = logged_done
+    rep.extra["real_optimize_calls_logged"] = logged_calls
     rep.evaluations += n_laws
     rep.extra.update({"parameter_grids_checked": n_laws, "tuner_runs_scripted": done, "grid_points_evaluated": pts,
                       "scripted_optimize_calls_logged": calls, "tuner_runs_real_optimizers": real_done,
@@ -352,6 +469,7 @@ def check(prop, tier, seed):
     rep.require("parameter_grids_checked", n_laws, 500)
     rep.require("tuner_runs_scripted", done, int(0.9 * n_tuner))
     rep.require("tuner_runs_real_optimizers", real_done, 10)
+    rep.require("tuner_runs_logged_real_optimizers", logged_done, 5)
     rep.require("scripted_optimize_calls_logged", calls, 5 * n_tuner)
     return rep.finish()
 
@@ -362,6 +480,8 @@ def replay(prop, data):
         r = work_tuner(rp["item"], {})
     elif rp.get("kind") == "real":
         r = work_real(rp["item"], {})
+    elif rp.get("kind") == "logged":
+        r = work_logged(rp["item"], {})
     else:
         r = work_laws({"grids": all_small_grids()}, {})
     for v in r["viol"]:
